@@ -264,8 +264,10 @@ func (s *fnStash) clone(c *cloner) stasher {
 	}
 	*out = fnStash{
 		dclStash:            *dclStash,
-		arguments:           c.object(s.arguments),
 		indexOfArgumentName: index,
+	}
+	if s.arguments != nil { // nil when a formal parameter is named arguments (10.5 step 7)
+		out.arguments = c.object(s.arguments)
 	}
 	return out
 }
